@@ -599,6 +599,11 @@ func (mn mon) Run(sh drv.Shard, c *drv.Ctx) {
 		for i := 0; i < a.Count; i++ {
 			cs := randCase(r)
 			cs.Conc = []int{4, 16, 64}[r.Intn(3)]
+			if cs.Relay > 0 {
+				// (a handler panic that Relay catches costs a stack trace and an Error record: with 64
+				// goroutines x 1200 requests that is minutes; the sequential shards keep the combination)
+				cs.PanicEvery = 0
+			}
 			if !exec(cs) {
 				break
 			}
